@@ -205,7 +205,7 @@ class TabWorld:
                                   fmt=fmt, kind="write", buffered=False)
         self.kinds.add(("write", fmt))
 
-    def op_parquet_direct(self, table, columns, types, rows, row_group_size, dict_strings=False):
+    def op_parquet_direct(self, table, columns, types, rows, row_group_size, dict_strings=False, index_start=0):
         import pyarrow as pa
         import pyarrow.parquet as pq
 
@@ -220,6 +220,11 @@ class TabWorld:
                 if t == "str":
                     tbl = tbl.set_column(i, columns[i], tbl.column(i).dictionary_encode())
                     self.stats["dictionary_typed_parquet"] = 1
+        if index_start:
+            from ..datagen import with_range_index_metadata
+
+            tbl = with_range_index_metadata(tbl, index_start)  # written by pandas from a sliced frame
+            self.stats["parquet_from_sliced_frame"] = 1
         pq.write_table(tbl, path, row_group_size=max(1, int(row_group_size)))
         self.tables[table] = {"path": path, "fmt": "parquet", "columns": list(columns), "types": list(types),
                               "rows": [list(r) for r in rows], "writer": None, "kind": "direct", "buffer_size": 0,
@@ -323,6 +328,10 @@ class TabWorld:
                                       f"is {list(ch.index)[:4]}..., expected to continue at {offset}", **sig)
             offset += len(ch)
             got.extend(frame_rows(ch, exp_cols))
+        if chunks and list(whole.index) != [i for ch in chunks for i in ch.index]:
+            raise OracleViolation("chunk_index", f"{via} reader on {t['fmt']} (chunk size {chunk_size}): the row index of the "
+                                  f"whole read starts {list(whole.index)[:3]}, the chunks' indices start "
+                                  f"{[i for ch in chunks for i in ch.index][:3]}", whole=True, **sig)
         if not rows_equal(exp_rows, got):
             raise OracleViolation("read_chunked", f"{via} reader on {t['fmt']} (chunk size {chunk_size}, "
                                   f"{len(chunks)} chunks): concatenated chunks differ from the table: "
